@@ -265,10 +265,10 @@ def base_draw(s, P, n, rng, log, int_seed=None):
     return P[rng.choice(ids, size=n, replace=True)]
 
 
-def pop_replay(case):
+def pop_replay(case, rng=None):
     S = [Sub(**d) for d in case['subs']]
     n = case['n']
-    rng = np.random.default_rng(case['seed'])
+    rng = np.random.default_rng(case['seed']) if rng is None else rng
     out = np.empty((n, popspec.total_dims(S)))
     logs = []
     for s, (d0, p0, c0) in zip(S, popspec.slices(S)):
